@@ -550,9 +550,23 @@ static void rnode_emit(struct rnode *n, struct regex *p)
 		p->p[jmpend[i]].a2 = p->n;
 }
 
+/* return nonzero if a multi-byte character of s is cut short */
+static int uc_cut(char *s)
+{
+	while (*s) {
+		int l = uc_len(s);
+		int i;
+		for (i = 1; i < l; i++)
+			if ((((unsigned char) s[i]) & 0xc0) != 0x80)
+				return 1;
+		s += l;
+	}
+	return 0;
+}
+
 int regcomp(regex_t *preg, char *pat, int flg)
 {
-	struct rnode *rnode = rnode_parse(&pat);
+	struct rnode *rnode = uc_cut(pat) ? NULL : rnode_parse(&pat);
 	struct regex *re;
 	int n = rnode_count(rnode) + 3;
 	int mark;
